@@ -9,6 +9,7 @@ Definition str := list N.
 (* ---------- ASCII literals (only for writing constants; proofs use numerals) ---------- *)
 From Coq Require Ascii String.
 Definition lit (s : String.string) : str := List.map Ascii.N_of_ascii (String.list_ascii_of_string s).
+Arguments lit _%string_scope.
 
 (* ---------- generic list helpers ---------- *)
 
